@@ -58,8 +58,8 @@ type Meta struct {
 
 type fdef struct{ name, typ string }
 
-var dFields = []fdef{{"A", "string"}, {"B", "int"}, {"C", "string"}, {"D", "string"}, {"N", "Nest"}, {"P", "*Nest"}, {"Base", ""}, {"Q", "int"}, {"R", "string"}, {"L", "[]string"}, {"M", "map[string]string"}, {"G", "int"}, {"L2", "[]int64"}}
-var sFields = []fdef{{"A", "int"}, {"B", "int"}, {"C", "string"}, {"D", "int"}, {"N", "Nest"}, {"P", "*Nest"}, {"Base", ""}, {"Q", "int"}, {"R", "string"}, {"L", "[]int"}, {"M", "map[string]int"}, {"L2", "[]int"}}
+var dFields = []fdef{{"A", "string"}, {"B", "int"}, {"C", "string"}, {"D", "string"}, {"N", "Nest"}, {"P", "*Nest"}, {"Base", ""}, {"Q", "int"}, {"R", "string"}, {"L", "[]string"}, {"M", "map[string]string"}, {"G", "int"}, {"L2", "[]int64"}, {"H", "int"}, {"HS", "string"}}
+var sFields = []fdef{{"A", "int"}, {"B", "int"}, {"C", "string"}, {"D", "int"}, {"N", "Nest"}, {"P", "*Nest"}, {"Base", ""}, {"Q", "int"}, {"R", "string"}, {"L", "[]int"}, {"M", "map[string]int"}, {"L2", "[]int"}, {"PP", "*Nest"}}
 
 func structText(name string, fs []fdef, pkgPrefix string) string {
 	var b strings.Builder
@@ -393,6 +393,18 @@ func Gen(r *sim.Rng, kind string) (*sim.WorldSpec, *Meta) {
 		if slot(15) {
 			f, c := pickCap(mm.RetErr, "cNX", "pNX")
 			notes = append(notes, ":conv "+f+" P.X") // a path through a pointer-to-struct field
+			capable[f] = c
+		}
+		// explicit SOURCE paths through a pointer member (never nil in the driver's
+		// operands), onto plain destination fields that nothing else assigns
+		if slot(20) {
+			g, c := pickCap(mm.RetErr, "PP.GetY()", "PP.PlainY()")
+			notes = append(notes, ":map "+g+" H")
+			capable["Nest."+strings.TrimSuffix(strings.TrimPrefix(g, "PP."), "()")] = c
+		}
+		if slot(20) {
+			f, c := pickCap(mm.RetErr, "cNX", "pNX")
+			notes = append(notes, ":conv "+f+" PP.X HS")
 			capable[f] = c
 		}
 		if slot(15) {
